@@ -276,7 +276,13 @@ def c11_consume(ctx):
     c14_4(ctx)
 
 
-RULES = [c11_1, c11_2, c11_3, c11_4, c11_5, c11_consume]
+def c11_values(ctx):
+    """Listed values "may be arbitrary expressions": they get their value from the expression parser only (C07.6)."""
+    from rules.c07 import c07_who
+    c07_who(ctx)
+
+
+RULES = [c11_1, c11_2, c11_3, c11_4, c11_5, c11_consume, c11_values]
 
 _D = 'assembler/line_object/data_line.py'
 _F = 'assembler/line_object/directive_line/fill_data.py'
